@@ -19,6 +19,7 @@ EXIT_OK, EXIT_VIOLATION, EXIT_UNDECIDED, EXIT_CHECKER = 0, 1, 2, 3
 
 
 def _import_repo():
+    from . import tensor  # noqa: F401 (registers the torch models)
     src = os.path.join(REPO, "src")
     if src not in sys.path:
         sys.path.insert(0, src)
@@ -78,6 +79,23 @@ def run_deductive(prop, tier, seed, log):
                           "symex_s": round(time.time() - tu, 2)})
         log(f"  unit {s.target}: {len(obs)} obligations, {sum(d['paths'] for d in diags)} paths"
             + (f", OUT-OF-SUBSET: {oos[:2]}" if oos else ""))
+    lem = getattr(mod, "LEMMAS", None)
+    if lem is not None:
+        from .core import Obligation
+        n0 = len(all_obs)
+        for name, hyps, goal in lem():
+            ob = Obligation(name, hyps, goal)
+            ob.unit = "lemma over contracts"
+            all_obs.append(ob)
+        # a lemma whose hypotheses are contradictory proves nothing: check them
+        for ob in all_obs[n0:]:
+            s_ = z3.Solver()
+            s_.set("timeout", 5000)
+            s_.add(*ob.hyps)
+            if s_.check() == z3.unsat:
+                raise CheckerError(f"vacuous lemma (contradictory hypotheses): {ob.name}")
+        unit_info.append({"target": "lemmas over contracts", "obligations": len(all_obs) - n0, "paths": 0,
+                          "configs": 0, "out_of_subset": [], "doc": (lem.__doc__ or "").strip().split("\n")[0]})
     t_symex = time.time() - t0
     timeout = 10000 if tier == "quick" else 120000
     axioms = getattr(mod, "extra_axioms", lambda: [])()
